@@ -817,6 +817,64 @@ func checkClockRebuild(c *Ctx) {
 			}
 		}
 	}
+	// the probing loop extracted into a helper answering "all clocks exist": it probes every element of the list
+	// it is given and answers false when a probe failed
+	var helperFlags []ssa.Value
+	if !okGet {
+		for _, cl := range Calls(fn) {
+			h := cl.Fn
+			if h == nil || len(h.Blocks) == 0 || fnPkgPath(h) != fnPkgPath(fn) || cl.Value() == nil {
+				continue
+			}
+			if b, isB := cl.Value().Type().Underlying().(*types.Basic); !isB || b.Kind() != types.Bool {
+				continue
+			}
+			passesClocks := false
+			for _, a := range cl.Args() {
+				if hasField(a, "Clocks") {
+					passesClocks = true
+				}
+			}
+			if !passesClocks {
+				continue
+			}
+			probes := false
+			for _, g := range CallsNamed(h, "repository.GoGitRepo.getClock") {
+				fromParam := false
+				for _, o := range origins(g.Args()[0]) {
+					if o.Kind == "param" {
+						fromParam = true
+					}
+				}
+				if !fromParam || enclosingLoopHeader(g.Block()) == nil {
+					continue
+				}
+				for _, fb := range failureBlocks(g.Value()) {
+					for _, b := range h.Blocks {
+						for _, ins := range b.Instrs {
+							phi, ok := ins.(*ssa.Phi)
+							if !ok {
+								continue
+							}
+							for i, e := range phi.Edges {
+								if k, isK := e.(*ssa.Const); isK && k.Value != nil && k.Value.String() == "false" && b.Preds[i] == fb {
+									for _, r := range Returns(h) {
+										if len(r.Results) == 1 && phiReaches(r.Results[0], phi) {
+											probes = true
+										}
+									}
+								}
+							}
+						}
+					}
+				}
+			}
+			if probes && len(earlyLoopExitsNoFail(h)) == 0 {
+				okGet = true
+				helperFlags = append(helperFlags, cl.Value())
+			}
+		}
+	}
 	c.Check(okGet, "R5.4", "OpenGoGitRepo:probe-each-clock", pos, "getClock is probed for every clock named by a loader", "the clocks named by the loaders are not probed")
 	// (a2) loader appended to the run list when the flag is false
 	okSched := false
@@ -839,6 +897,11 @@ func checkClockRebuild(c *Ctx) {
 				}
 				for _, fp := range flagPhis {
 					if phiReaches(cond, fp) && edge == 1 {
+						okSched = true
+					}
+				}
+				for _, hv := range helperFlags {
+					if cond == hv && edge == 1 {
 						okSched = true
 					}
 				}
@@ -1317,6 +1380,27 @@ func reachingValues(fn *ssa.Function, v ssa.Value) []ssa.Value {
 	}
 	if len(out) == 0 {
 		return []ssa.Value{v}
+	}
+	return out
+}
+
+// earlyLoopExitsNoFail: edges leaving a loop of f from another block than its header (whatever they lead to).
+func earlyLoopExitsNoFail(f *ssa.Function) []loopExit {
+	var out []loopExit
+	for _, h := range f.Blocks {
+		if !isLoopHeader(h) {
+			continue
+		}
+		for _, b := range f.Blocks {
+			if b == h || !inLoop(b, h) {
+				continue
+			}
+			for _, s := range b.Succs {
+				if !inLoop(s, h) {
+					out = append(out, loopExit{h, b, s})
+				}
+			}
+		}
 	}
 	return out
 }
